@@ -29,8 +29,14 @@ def _filter_valid_locales(locales):
 
 def _construct_locales(languages, region):
     if region:
-        possible_locales = [language + "-" + region for language in languages]
-        locales = _filter_valid_locales(possible_locales)
+        # One entry per language, so that the result stays aligned with
+        # `languages`: a language that has no such region is used as is.
+        locales = [
+            language + "-" + region
+            if _isvalidlocale(language + "-" + region)
+            else language
+            for language in languages
+        ]
     else:
         locales = languages
     return locales
